@@ -331,6 +331,8 @@ PROPS['C15'] = {
 
 PROPS['C16'] = {
     'title': 'A SourceView shared between threads answers as if accessed by one',
+    'technique': 'bounded model checking (Kani 0.68 / CBMC 6.11 / CaDiCaL) of a sequentialised interleaving encoding: at the '
+                 'sourcemap_verif yield points and at every Mutex::lock (stubbed) the solver may run complete calls of other threads',
     'functions': ['sourceview::SourceView::get_line (with the sourcemap_verif yield points)', 'SourceView::line_count',
                   'sourceview::verif_hooks::yield_point'],
     'harnesses': [
@@ -463,6 +465,8 @@ _C12_SMALL = ['header ends with LF', 'bare CR', 'no header', 'short read', 'thre
 
 PROPS['C12'] = {
     'title': 'Reader, slice and data-URL decoding agree, however the stream is chunked',
+    'technique': 'bounded model checking (Kani 0.68 / CBMC 6.11 / CaDiCaL): reader vs slice header stripping on symbolic bytes; the '
+                 'chunking of the stream is a solver variable (N <= 3) or enumerated per composition (N = 3..6)',
     'functions': ['decoder::StripHeaderReader::read', 'decoder::StripHeaderReader::strip_head_read', 'decoder::strip_junk_header',
                   'decoder::is_junk_json'],
     'harnesses': [
